@@ -435,6 +435,19 @@ def c19_slices(tier):
 
 C19_FATAL = {"batch:ok", "batch:singles", "batch:plains", "single_sign:ok", "*:rng_unused", "*:rng_overrun", "*:panic"}
 
+# ------------------------------------------------------------------------ C12
+def c12_stages(ctx):
+    import lib
+    for q in (7, 13):
+        lib.assume_stage(ctx, "codec_laws_q%d" % q, "CodecLaws", dict(Q=q, P=lib.TOY[q][0], GEN=lib.TOY[q][1]))
+    lib.codec_stage(ctx)
+
+
+def c05_codec(ctx):
+    import lib
+    lib.assume_stage(ctx, "codec_laws_q7", "CodecLaws", dict(Q=7, P=29, GEN=16))
+
+
 PROPS = {
     "C01": dict(slices=c01_slices, fatal=C01_FATAL, traces=True, level="model_checking",
                 rule="TLC enumerates every behaviour of the C01 schedule within each slice's constants; "
@@ -442,7 +455,7 @@ PROPS = {
                      "ciphersuite with TLC's random draws and oracle answers; non-trivial = distinct behaviour",
                 assumptions=["TLC 1.8.0 and the CommunityModules", "the toy ciphersuite and interpreter in /verif/harness",
                              "the toy-to-real argument of DESIGN 6.2"]),
-    "C05": dict(slices=c05_slices, fatal=C05_FATAL, traces=True, level="model_checking",
+    "C05": dict(slices=c05_slices, fatal=C05_FATAL, traces=True, stages=[c05_codec], level="model_checking",
                 rule="two concurrent sessions over one key; TLC enumerates every probe (cross-session share, every "
                      "A/B slot filling, every single-field substitution of the package, own-entry faults, identity "
                      "commitments) and each behaviour is replayed on the real library with exact oracle preimages",
@@ -506,6 +519,16 @@ PROPS = {
                      "counts, per batch, the accepting blinder vectors (exactly q^(n-1) when an item is invalid)",
                 assumptions=["TLC 1.8.0 and the CommunityModules", "the toy ciphersuite and interpreter in /verif/harness",
                              "the toy-to-real argument of DESIGN 6.2"]),
+    "C12": dict(stages=[c12_stages], fatal=set(), level="model_checking",
+                rule="decode/encode events for about 25 wire types x 7 suites: valid encodings, every single-bit deviation, "
+                     "every value of the first and last byte, random strings, wrong lengths, the rejection catalogue (identity, "
+                     "zero, >= order, small/mixed order, non-canonical field elements, version, foreign suite id), container "
+                     "round trips (binary, JSON); toy: the whole 2^16 space of each primitive against the codec specification",
+                level_note="TLC decides laws over observed decoder behaviour and, for the toy suite, the exact acceptance "
+                           "sets; it cannot decide subgroup membership in the real curves (DESIGN 6.3): the rejection catalogue "
+                           "relies on constructed small/mixed-order points (ed25519 via curve25519-dalek's torsion table)",
+                assumptions=["TLC 1.8.0 and the CommunityModules", "the event generator harness/src/codec.rs",
+                             "curve25519-dalek's EIGHT_TORSION table for constructing small/mixed-order points"]),
     "C04": dict(slices=c04_slices, fatal=C04_FATAL, level="model_checking", traces=True,
                 rule="TLC enumerates every filling of the share slots (honest / off by d / negated / zero / another "
                      "signer's / another session's share) for every signer subset within the slice constants and runs "
